@@ -180,8 +180,10 @@ class JsonDocument(HierDictDocument):
                     in_string = in_string.decode(in_string_encoding)
             ctx.in_document = json.loads(in_string, **self.kwargs)
 
-        except (JSONDecodeError, UnicodeDecodeError, RecursionError) as e:
-            # deeply nested documents exhaust the parser's recursion limit
+        except (JSONDecodeError, UnicodeDecodeError, RecursionError,
+                                                             LookupError) as e:
+            # deeply nested documents exhaust the parser's recursion limit,
+            # an unknown charset in the content type raises LookupError
             raise Fault('Client.JsonDecodeError', repr(e))
 
     def create_out_string(self, ctx, out_string_encoding='utf8'):
